@@ -182,10 +182,12 @@ theorem handleBlacklisted_reach {c c' aid} (h : handleBlacklisted c aid = .ok c'
   simp only [handleBlacklisted, bind_ok, orAbort_ok] at h
   obtain ⟨a, _, h⟩ := h
   split at h
-  · simp only [bind_ok] at h
-    obtain ⟨c1, h1, h2⟩ := h
-    exact (Reach.single (.remove h1)).step (.release h2)
   · simp only [pure_ok] at h; subst h; exact .refl
+  · split at h
+    · simp only [bind_ok] at h
+      obtain ⟨c1, h1, h2⟩ := h
+      exact (Reach.single (.remove h1)).step (.release h2)
+    · exact Reach.single (.release h)
 
 theorem fixInvalidIdentity_reach {c c' aid} (h : fixInvalidIdentity c aid = .ok c') : Reach c c' := by
   simp only [fixInvalidIdentity, bind_ok, orAbort_ok] at h
